@@ -801,6 +801,42 @@ func c12Prepare(c *core.Ctx) {
 		})
 		c.Ob("C12-R4", fd.Name()+"#exempt-clears", fd.Decl.Pos(), cleared["Percent"] && cleared["Surcharge"],
 			"an exempt rate does not clear both percent and surcharge and return before the value selection")
+		// the exempt test must be reached whenever a rate definition was found:
+		// no success return between the rate lookup and the exempt test
+		var exemptLeaf ast.Expr
+		ast.Inspect(fd.Decl.Body, func(m ast.Node) bool {
+			if is, ok := m.(*ast.IfStmt); ok {
+				if f := core.FieldOf(info, is.Cond); f != nil && f.Name() == "Exempt" {
+					exemptLeaf = is.Cond
+				}
+			}
+			return true
+		})
+		lookups := core.CallsTo(info, fd.Decl.Body, func(f *types.Func) bool {
+			r := core.RecvNamed(f)
+			return r != nil && r.Obj().Name() == "CategoryDef" && f.Name() == "RateDef"
+		})
+		if exemptLeaf != nil && len(lookups) == 1 {
+			bypass := ""
+			for _, r := range ff.Flow.Returns() {
+				if !ff.Flow.Reachable(r) {
+					continue
+				}
+				if k, _ := ff.ClassifyReturn(p, r); k != core.RetSuccess {
+					continue
+				}
+				if _, known := ff.Flow.CondAt(r, exemptLeaf); known {
+					continue
+				}
+				if ff.Flow.PassedAt(r)[lookups[0]] {
+					bypass = p.Rel(r.Pos())
+				}
+			}
+			c.Ob("C12-R4", fd.Name()+"#exempt-reached", exemptLeaf.Pos(), bypass == "",
+				"a success return at "+bypass+" lies between the rate lookup and the exempt test: an exempt key can keep a stale percentage")
+		} else {
+			c.Undecided("C12-R4", fd.Name()+"#exempt-reached", fd.Decl.Pos(), "exempt test or rate lookup not found")
+		}
 	}
 	if n == 0 {
 		c.Ob("C12-R4", "UNRESOLVED:prepareRate", token.NoPos, false, "no function of package tax calls RateDef.Value")
